@@ -125,6 +125,22 @@ Theorem C04_valid_cex_satisfies_current_query :
 Proof. exact valid_cex_satisfies_current_query. Qed.
 Print Assumptions C04_valid_cex_satisfies_current_query.
 
+(* the paths of one function are solved concurrently in one directory: distinct
+   (path id, is_refined) pairs never share a query file, and a query file is never the
+   .out / .err file of another query - so no path's query is overwritten while its solver runs *)
+Theorem C04_query_files_distinct :
+  forall c1 c2 : pctx, 0 <= path_id c1 -> 0 <= path_id c2 ->
+    dump_name c1 = dump_name c2 -> path_id c1 = path_id c2 /\ refined c1 = refined c2.
+Proof. exact dump_name_inj. Qed.
+Print Assumptions C04_query_files_distinct.
+
+Theorem C04_query_file_is_no_output_file :
+  forall (c1 c2 : pctx) sfx, 0 <= path_id c1 -> 0 <= path_id c2 ->
+    sfx = ".out"%string \/ sfx = ".err"%string ->
+    dump_name c1 <> (dump_name c2 ++ sfx)%string.
+Proof. exact dump_name_not_output. Qed.
+Print Assumptions C04_query_file_is_no_output_file.
+
 (* a stale 0.smt2 / 0.smt2.out of another query (x = 42) is in the directory; the solver
    answers by the text it is handed; the current query (x = 43) gets its own answer *)
 Example C04_stale_files_nonvacuous :
